@@ -29,9 +29,9 @@ class TickRounding(Harness):
     title = "real Market._add_order on an arbitrary positive price: rounded onto the grid, never more aggressive"
     what_symbolic = "the submitted price (any positive real up to 1e9); tick size from a stated set; both sides"
     nontrivial_event = "the price was off the grid and was moved"
-    ticks = [1, F(1, 2), F(1, 4), F(1, 10), F(1, 100), F(1, 100000), F(7, 4), 3, 0.1, 0.01, 1e-05, 2.5]
-    bounds = {"quick": "tick in {1, 1/2, 1/4, 1/10, 1/100, 1e-5, 7/4, 3 (exact rationals), and the doubles 0.1, 0.01, "
-                       "1e-05, 2.5 taken at their exact binary value}; price any real in (0, 1e9]; buy and sell (the side as "
+    ticks = [1, F(1, 2), F(1, 4), F(1, 10), F(1, 100), F(1, 100000), F(7, 4), 3, 0.1, 0.01, 1e-05, 2.5, F(3, 4), 0.375, F(2, 5)]
+    bounds = {"quick": "tick in {1, 1/2, 1/4, 1/10, 1/100, 1e-5, 7/4, 3, 3/4, 2/5 (exact rationals), and the doubles 0.1, 0.01, "
+                       "1e-05, 2.5, 0.375 taken at their exact binary value}; price any real in (0, 1e9]; buy and sell (the side as "
                        "a bool, and for two ticks as an int or a numpy.bool_)",
               "thorough": "adds the ticks 1/3, 2/7, 5, 10, 1/3000, 250 and the doubles 0.05, 0.2, 0.001, 0.125, 12.5, 1e-07"}
     reach = ("nontrivial", "on-grid")
